@@ -210,12 +210,13 @@ Section WithOracles.
         if empty_container v then Ok PNone else vset re_match [] FNone v
     | LPrim f => vset re_match [] f v
     | LEnum cls ms byv =>
-        if negb (py_hashable v) then Raise TypeError
-        else if byv then
-          match find (fun p => py_eq (snd p) v) ms with
-          | Some (n, x) => Ok (PEnum cls n x)
-          | None => Raise ValueError
-          end
+        if byv then
+          (* `value not in self._enum_by_value` hashes the value *)
+          if negb (py_hashable v) then Raise TypeError
+          else match find (fun p => py_eq (snd p) v) ms with
+               | Some (n, x) => Ok (PEnum cls n x)
+               | None => Raise ValueError
+               end
         else match v with
              | PStr n => match alist_get ms n with Some x => Ok (PEnum cls n x) | None => Raise ValueError end
              | _ => Raise ValueError
@@ -451,7 +452,7 @@ Section WithOracles.
   Definition leaf_deser_whole (l : leaf) (v : pyval) : res pyval :=
     match l with
     | LSer id _ => sdeser id v
-    | LEnum _ _ _ => if py_hashable v then reg_leaf l v else Raise TypeError
+    | LEnum _ _ _ => reg_leaf l v
     | LEnumLit vals => if py_in v vals then Ok v else Raise ValueError
     | LPrim _ => Ok v
     end.
